@@ -314,16 +314,16 @@ type RunRec struct {
 }
 
 type VariantRec struct {
-	Variant   string `json:"variant"`
-	GenExit   int    `json:"gen_exit"`
-	GenOut    string `json:"gen_out"`
-	Packed    bool   `json:"packed"` // generated file contains StatePackAction
-	BuildOK   bool   `json:"build_ok"`
-	BuildOut  string `json:"build_out"`
-	VetOut    string `json:"vet_out"`
-	RunErr    string `json:"run_err"`
-	NRuns     int    `json:"nruns"`
-	Dir       string `json:"dir"`
+	Variant  string `json:"variant"`
+	GenExit  int    `json:"gen_exit"`
+	GenOut   string `json:"gen_out"`
+	Packed   bool   `json:"packed"` // generated file contains StatePackAction
+	BuildOK  bool   `json:"build_ok"`
+	BuildOut string `json:"build_out"`
+	VetOut   string `json:"vet_out"`
+	RunErr   string `json:"run_err"`
+	NRuns    int    `json:"nruns"`
+	Dir      string `json:"dir"`
 }
 
 type CaseRec struct {
@@ -803,7 +803,7 @@ type tlaCase struct {
 	G      tlaGrammar `json:"g"`
 	Valued bool       `json:"valued"`
 	Tags   []tlaTag   `json:"tags"`
-	Acts   []tlaAct   `json:"acts"` // aligned with g.rules (entry 1 = augmented rule, unused)
+	Acts   []tlaAct   `json:"acts"`  // aligned with g.rules (entry 1 = augmented rule, unused)
 	Texts  []string   `json:"texts"` // rule text as the trace prints it, aligned with g.rules
 }
 
